@@ -98,8 +98,10 @@ Exception ValueError NotImplementedError StopIteration TypeError RuntimeError Ke
 STRUCT_BUILTINS = set("zip enumerate list tuple dict reversed sorted iter next set".split())
 ANYARG_BUILTINS = set("max min sum".split())
 
-# attribute stores that rebind a field of a non-tensor Python object; they are
-# not tensor writes and are only logged (DESIGN.md C11 "Limits")
+# attribute stores `obj.attr = v` on an object other than `self` are STORES into that object (round 4,
+# review finding 1): `lf.instances = lf.user_instances` changes the caller's LabeledFrame, i.e. the
+# labels.  They are translated as `SStore obj [v]` (and listed in the evidence); before round 4 the
+# store of this attribute was only logged, which removed the write from the program that was proved pure.
 LOGGED_ATTR_STORES = {"instances"}
 
 # super().<method>() calls that are external oracles returning new objects (litdata)
@@ -113,7 +115,10 @@ FRESH_CALLABLE_CTORS = ("torchvision.transforms.PILToTensor",)
 MAYBE_CALLABLE_CTORS = ("torchvision.transforms.ToPILImage",)
 
 # methods of the Dataset classes themselves that are external oracles (fresh result)
-SELF_FRESH_METHODS = {"_get_video_idx", "transform_to_pil", "transform_pil_to_tensor"}
+SELF_FRESH_METHODS = {"_get_video_idx", "transform_pil_to_tensor"}
+# self.transform_to_pil = T.ToPILImage(): the same callable as in get_data_chunks.py (MAYBE_CALLABLE_CTORS):
+# its result may share the buffer of its argument (round 4, review finding 6: the two now agree)
+SELF_MAYBE_METHODS = {"transform_to_pil"}
 
 DATA = "sleap_nn/data"
 MODULES = {
@@ -535,6 +540,12 @@ class Translator:
                 and (sc.self_model is not None or "self" in sc.names) and f.attr in SELF_FRESH_METHODS:
             self.args_of(e, sc, out)
             return self.fresh(out, e, sc, f"self.{f.attr}() oracle")
+        if isinstance(f, ast.Attribute) and isinstance(f.value, ast.Name) and f.value.id == "self" \
+                and (sc.self_model is not None or "self" in sc.names) and f.attr in SELF_MAYBE_METHODS:
+            pos, kw, extra = self.args_of(e, sc, out)
+            allargs = pos + list(kw.values()) + extra
+            return self.apply_kind("maybe", e, sc, out, allargs[0] if allargs else None, allargs,
+                                   f"self.{f.attr}() callable: new object or its argument's buffer")
         # ---- super().__getitem__(index) of a litdata StreamingDataset: the sample is deserialised from
         #      the chunk file on every call: a new dict holding new objects (external oracle)
         if isinstance(f, ast.Attribute) and f.attr in SUPER_FRESH_METHODS and isinstance(f.value, ast.Call) \
@@ -714,9 +725,11 @@ class Translator:
                     return
                 self.bad(t, sc, f"store to self.{t.attr}")
             if t.attr in LOGGED_ATTR_STORES and not (isinstance(t.value, ast.Name) and t.value.id == "self"):
-                self.expr(t.value, sc, out)
-                self.logged.append(f"{sc.mod.path.name}:{t.lineno}: attribute rebinding "
-                                   f"{ast.unparse(t)} = ... (object field, not a tensor write; logged only)")
+                base = self.expr(t.value, sc, out)
+                self.logged.append(f"{sc.mod.path.name}:{t.lineno}: attribute store "
+                                   f"{ast.unparse(t)} = ... (a write to the object `{ast.unparse(t.value)}`: SStore)")
+                st = self.mkstore(base, [val])
+                out.append(st[:3] + (st[3] + f":attr={t.attr}",))
                 return
             self.bad(t, sc, f"attribute store {ast.unparse(t)}")
         else:
